@@ -1152,6 +1152,10 @@ func (envs *Manager) handleDeviceEvent(evt event.DeviceEvent) {
 			if env.CurrentState() == "RUNNING" {
 				go func() {
 					t.GetParent().UpdateState(sm.ERROR)
+					if !t.GetTraits().Critical {
+						// the ERROR of a non-critical task is recorded on its role, but must not end the run
+						return
+					}
 					err = env.TryTransition(NewStopActivityTransition(envs.taskman))
 					if err != nil {
 						log.WithPrefix("scheduler").
